@@ -58,6 +58,11 @@ structure WF (e : Entry) (r : Rec) : Prop where
 /-- a collision of the hash: two different inputs with one output -/
 def Collision (H : Bytes → Dig) : Prop := ∃ x y, x ≠ y ∧ H x = H y
 
+/-- two byte strings that really collide under `H` -/
+def CollideOn (H : Bytes → Dig) (x y : Bytes) : Prop := x ≠ y ∧ H x = H y
+
+theorem CollideOn.collision {H : Bytes → Dig} {x y : Bytes} (h : CollideOn H x y) : Collision H := ⟨x, y, h.1, h.2⟩
+
 /-! ### executable judge helpers (used by the driver on the implementation's output) -/
 
 /-- hashed content as a comparable tuple -/
